@@ -97,6 +97,17 @@ def check_sizes(c, f):
                 # needs the guard len(acc) < size on the way in (loop condition, in-loop break, nested if: all the same path condition)
                 ok = ('%s < %s' % (other, size), True) in loop_entry_conditions(g, n)
                 wit = 'requested %r; guard %s < %s %s' % (L, other, size, 'holds on the way in' if ok else 'missing')
+            elif L.terms[other] == -1 and other.isidentifier():
+                # a running count of what has been read so far (`got = len(first)` ... `got += len(chunk)`), the request computed from its
+                # CURRENT value (a request computed before the count was last updated is a stale local and is not written out: see stale.py)
+                binds = [st for st in iter_nodes(f.node) if isinstance(st, (ast.Assign, ast.AugAssign)) and other in assigned_names(st)]
+                counter = bool(binds) and all(
+                    (isinstance(st, ast.Assign) and isinstance(st.value, ast.Call) and dotted(st.value.func) == 'len') or
+                    (isinstance(st, ast.AugAssign) and isinstance(st.op, ast.Add) and isinstance(st.value, ast.Call) and dotted(st.value.func) == 'len') or
+                    (isinstance(st, ast.Assign) and isinstance(st.value, ast.BinOp) and isinstance(st.value.op, ast.Add) and norm(st.value.left) == other
+                     and isinstance(st.value.right, ast.Call) and dotted(st.value.right.func) == 'len') for st in binds)
+                ok = counter and ('%s < %s' % (other, size), True) in loop_entry_conditions(g, n)
+                wit = 'requested %r; %s is %sa running count of the lengths read; guard %s < %s %s' % (L, other, '' if counter else 'not ', other, size, 'holds on the way in' if ok else 'missing')
         c.check(ok, f, k, 'the read asks for at most `size` (never more than the caller allowed)', witness=wit, kind='alg', tag='req:' + norm(k)[:50])
     if f.qual.startswith('popen_spawn:'):
         # complementary slices
